@@ -106,6 +106,8 @@ func c12zero(key string) string {
 
 func (h *c12Handle) Put(ctx context.Context, ns, key string, value []byte) error {
 	f := h.f
+	lkey := key
+	key = ns + "\x00" + key
 	v := append([]byte(nil), value...)
 	f.mu.Lock()
 	if h.epoch != f.epoch {
@@ -115,10 +117,10 @@ func (h *c12Handle) Put(ctx context.Context, ns, key string, value []byte) error
 	if c12GID() == f.opGID {
 		f.data[key] = v
 		f.mu.Unlock()
-		f.log.add("sp%s", c12Idx(key))
+		f.log.add("sp%s", c12Idx(lkey))
 		return nil
 	}
-	p := &c12Put{key: key, val: v, release: make(chan bool, 1), done: make(chan struct{}), ticket: -1}
+	p := &c12Put{key: lkey, val: v, release: make(chan bool, 1), done: make(chan struct{}), ticket: -1}
 	f.parked = append(f.parked, p)
 	f.mu.Unlock()
 	apply := <-p.release
@@ -141,7 +143,7 @@ func (h *c12Handle) Delete(ctx context.Context, ns, key string) error {
 		f.mu.Unlock()
 		return errC12Dead
 	}
-	delete(f.data, key)
+	delete(f.data, ns+"\x00"+key)
 	f.mu.Unlock()
 	f.log.add("sd%s", c12Idx(key))
 	return nil
@@ -152,7 +154,9 @@ func (h *c12Handle) Load(ctx context.Context, ns string, fn opdb.LoadFunc) error
 	f.mu.Lock()
 	keys := make([]string, 0, len(f.data))
 	for k := range f.data {
-		keys = append(keys, k)
+		if strings.HasPrefix(k, ns+"\x00") {
+			keys = append(keys, k)
+		}
 	}
 	sort.Strings(keys)
 	vals := make([][]byte, len(keys))
@@ -161,7 +165,7 @@ func (h *c12Handle) Load(ctx context.Context, ns string, fn opdb.LoadFunc) error
 	}
 	f.mu.Unlock()
 	for i, k := range keys {
-		if err := fn(k, vals[i]); err != nil {
+		if err := fn(strings.TrimPrefix(k, ns+"\x00"), vals[i]); err != nil {
 			return err
 		}
 	}
@@ -574,6 +578,7 @@ type c12Env struct {
 	p       c12Proto
 	n4, n6  int
 	kpd     int
+	ns      string
 	tick    int
 	tickets map[int]*c12Put // assigned parked puts
 	used    map[int]bool
@@ -688,6 +693,10 @@ func (e *c12Env) dumpStore() string {
 	sort.Strings(keys)
 	out := []string{}
 	for _, k := range keys {
+		if !strings.HasPrefix(k, e.ns+"\x00") {
+			out = append(out, "FOREIGN-NAMESPACE")
+			continue
+		}
 		out = append(out, e.p.dumpStored(e.fake.data[k], e.kpd))
 	}
 	if len(out) == 0 {
@@ -879,7 +888,7 @@ func (e *c12Env) runCase(f []string) string {
 	return strings.Join(out, " | ")
 }
 
-func c12Run(t *testing.T, mk func(e *c12Env) c12Proto, dpPrefix string) {
+func c12Run(t *testing.T, mk func(e *c12Env) c12Proto, dpPrefix string, ns string) {
 	in, err := os.Open(os.Getenv("VERIF_CASES"))
 	if err != nil {
 		t.Fatal(err)
@@ -910,6 +919,7 @@ func c12Run(t *testing.T, mk func(e *c12Env) c12Proto, dpPrefix string) {
 			lg := &c12Log{}
 			e := &c12Env{log: lg, fake: &c12Fake{data: map[string][]byte{}, log: lg, opGID: -2}, sb: newC12SB(lg, dpPrefix),
 				bus: &c12Bus{log: lg}, cache: newC12Cache(), tickets: map[int]*c12Put{}, used: map[int]bool{}, t0: time.Now()}
+			e.ns = ns
 			e.n4, _ = strconv.Atoi(f[1])
 			e.n6, _ = strconv.Atoi(f[2])
 			e.kpd, _ = strconv.Atoi(f[3])
